@@ -880,4 +880,242 @@ theorem boundsAt_static : ∀ (s : SLayout) (sh : List Nat), sh.length = s.lengt
     have ih := boundsAt_static ts ds (by simpa using h) (fun t' ht' => hne t' (by simp [ht']))
     simp only [List.map_cons, boundsAt, boundsDim_static t (hne t (by simp)) d, ih]
 
+/-! ### step ops (`get_step_ops`) -/
+
+theorem stepsRev_static (el : Nat) : ∀ (L : List (SStride × Nat)) (dyn : Nat),
+    stepsRev el (L.map fun p => (p.1.toStride, p.2)) dyn = L.map fun p => p.1.step * el
+  | [], _ => rfl
+  | p :: r, dyn => by
+    have ih := stepsRev_static el r dyn
+    simp only [SStride.toStride] at ih
+    simp only [List.map_cons, stepsRev, SStride.toStride, ih]
+
+theorem regroup_map {α : Type} (f : α → Stride) (g : α → Nat) : ∀ (s : List (List α)),
+    regroup (s.map (·.map f)) (s.flatten.map g) = s.map (·.map g)
+  | [] => rfl
+  | t :: ts => by
+    simp only [List.map_cons, regroup, List.flatten_cons, List.map_append, List.length_map]
+    rw [List.take_left' (by simp), List.drop_left' (by simp), regroup_map f g ts]
+
+theorem regroup_map_steps (f : Nat → Nat) : ∀ (ts : List TStride) (X : List Nat),
+    regroup ts (X.map f) = (regroup ts X).map (·.map f)
+  | [], _ => rfl
+  | t :: ts, X => by
+    simp only [regroup, List.map_cons, List.map_take]
+    rw [← List.map_drop, regroup_map_steps f ts]
+
+theorem flatten_regroup : ∀ (ts : List TStride) (X : List Nat), X.length = (ts.map List.length).sum →
+    (regroup ts X).flatten = X
+  | [], X, h => by
+    simp at h; simp [regroup, h]
+  | t :: ts, X, h => by
+    simp only [List.map_cons, List.sum_cons] at h
+    simp only [regroup, List.flatten_cons]
+    rw [flatten_regroup ts (X.drop t.length) (by simp [List.length_drop]; omega), List.take_append_drop]
+
+theorem length_stepsRev (el : Nat) : ∀ (L : List (Stride × Nat)) (dyn : Nat), (stepsRev el L dyn).length = L.length
+  | [], _ => rfl
+  | (s, b) :: r, dyn => by
+    cases h : s.step <;> simp [stepsRev, h, length_stepsRev el r]
+
+/-- the core of `stepsAt` on a static layout does not depend on the seed of the dynamic chain -/
+theorem stepsCore_static (s : SLayout) (el dyn : Nat) :
+    regroup (s.map (·.map SStride.toStride))
+      (stepsRev el (((s.map (·.map SStride.toStride)).flatten.zip (s.map (·.map (·.bound))).flatten).reverse) dyn).reverse
+      = s.map (·.map (·.step * el)) := by
+  have h1 : (s.map (·.map SStride.toStride)).flatten = s.flatten.map SStride.toStride := by
+    rw [List.map_flatten]
+  have h2 : (s.map (·.map (·.bound))).flatten = s.flatten.map (·.bound) := by
+    rw [List.map_flatten]
+  have h3 : (s.flatten.map SStride.toStride).zip (s.flatten.map (·.bound))
+      = (s.flatten.map fun x => (x, x.bound)).map fun p => (p.1.toStride, p.2) := by
+    rw [List.zip_map', List.map_map]; rfl
+  rw [h1, h2, h3, ← List.map_reverse, stepsRev_static]
+  simp only [List.map_reverse, List.reverse_reverse, List.map_map, Function.comp_def]
+  exact regroup_map SStride.toStride (fun x => x.step * el) s
+
+theorem strides_ofStatic (s : SLayout) (off : Option Int) :
+    (ofStatic s off).strides = (s.map (·.map SStride.toStride)).flatten := rfl
+
+theorem stepsAt_ofStatic (s : SLayout) (off : Option Int) (el : Nat) (hs : s ≠ []) (hne : ∀ t ∈ s, t ≠ []) :
+    stepsAt (ofStatic s off) (s.map (·.map (·.bound))) el = .ok (s.map (·.map (·.step * el))) := by
+  have hts : (ofStatic s off).ts = s.map (·.map SStride.toStride) := rfl
+  have hlen : ((s.map (·.map SStride.toStride)).flatten).length = ((s.map (·.map (·.bound))).flatten).length := by
+    simp [List.length_flatten, Function.comp_def]
+  have hflat : (s.map (·.map SStride.toStride)).flatten ≠ [] := by
+    cases s with
+    | nil => exact absurd rfl hs
+    | cons t ts =>
+      cases t with
+      | nil => exact absurd rfl (hne [] (by simp))
+      | cons x r => simp
+  have h1 : ¬ (s.map (·.map SStride.toStride)) = [] := by
+    cases s with
+    | nil => exact absurd rfl hs
+    | cons t ts => simp
+  unfold stepsAt
+  simp only [strides_ofStatic, hts, if_neg h1, hlen, ne_eq, not_true_eq_false, if_false, if_neg hflat]
+  rcases maxStep _ 0 _ 0 with ⟨p, v⟩
+  simp only [stepsCore_static]
+
+/-- bytes = element size × elements, at the level of the right-to-left loop -/
+theorem stepsRev_scale (el : Nat) : ∀ (L : List (Stride × Nat)) (dyn : Nat),
+    stepsRev el L (dyn * el) = (stepsRev 1 L dyn).map (· * el)
+  | [], _ => rfl
+  | (s, b) :: r, dyn => by
+    cases h : s.step with
+    | some st => simp [stepsRev, h, stepsRev_scale el r dyn]
+    | none =>
+      have := stepsRev_scale el r (dyn * b)
+      rw [show dyn * b * el = dyn * el * b by ring] at this
+      simp [stepsRev, h, this]
+
+/-- the chain: a static tile gets its literal step; a dynamic tile gets the seed times the extents of the
+    dynamic tiles visited before it (to its right / inside it) -/
+theorem stepsRev_getElem (el : Nat) : ∀ (L : List (Stride × Nat)) (dyn i : Nat) (s : Stride) (b : Nat),
+    L[i]? = some (s, b) →
+    (stepsRev el L dyn)[i]? = some (match s.step with
+      | some st => st * el
+      | none => dyn * dynProd (L.take i))
+  | [], _, _, _, _, h => by simp at h
+  | (s0, b0) :: r, dyn, 0, s, b, h => by
+    simp only [List.getElem?_cons_zero, Option.some.injEq, Prod.mk.injEq] at h
+    obtain ⟨rfl, rfl⟩ := h
+    cases hs : s0.step <;> simp [stepsRev, hs, dynProd]
+  | (s0, b0) :: r, dyn, i + 1, s, b, h => by
+    simp only [List.getElem?_cons_succ] at h
+    cases hs0 : s0.step with
+    | some st0 =>
+      have ih := stepsRev_getElem el r dyn i s b h
+      simp only [stepsRev, hs0, List.getElem?_cons_succ, ih, List.take_succ_cons, dynProd, Nat.one_mul]
+    | none =>
+      have ih := stepsRev_getElem el r (dyn * b0) i s b h
+      simp only [stepsRev, hs0, List.getElem?_cons_succ, ih, List.take_succ_cons, dynProd, Nat.mul_assoc]
+
+/-- `maxStep` returns the running maximum: at least the initial value and every static step seen -/
+theorem maxStep_ge : ∀ (l : List Stride) (pos bp bv : Nat),
+    bv ≤ (maxStep l pos bp bv).2 ∧ ∀ x ∈ l, ∀ st, x.step = some st → st ≤ (maxStep l pos bp bv).2
+  | [], _, _, _ => by simp [maxStep]
+  | s :: r, pos, bp, bv => by
+    cases hs : s.step with
+    | none =>
+      have ih := maxStep_ge r (pos + 1) bp bv
+      simp only [maxStep, hs]
+      refine ⟨ih.1, ?_⟩
+      intro x hx st hst
+      rcases List.mem_cons.mp hx with rfl | hx
+      · rw [hs] at hst; cases hst
+      · exact ih.2 x hx st hst
+    | some st0 =>
+      simp only [maxStep, hs]
+      by_cases hgt : st0 > bv
+      · have ih := maxStep_ge r (pos + 1) pos st0
+        rw [if_pos hgt]
+        refine ⟨by omega, ?_⟩
+        intro x hx st hst
+        rcases List.mem_cons.mp hx with rfl | hx
+        · rw [hs] at hst; cases hst; exact ih.1
+        · exact ih.2 x hx st hst
+      · have ih := maxStep_ge r (pos + 1) bp bv
+        rw [if_neg hgt]
+        refine ⟨ih.1, ?_⟩
+        intro x hx st hst
+        rcases List.mem_cons.mp hx with rfl | hx
+        · rw [hs] at hst; cases hst; omega
+        · exact ih.2 x hx st hst
+
+/-- … and it is attained: either nothing beat the initial value, or the returned position (relative to the
+    start of the list) holds a static step equal to the returned value -/
+theorem maxStep_attained : ∀ (l : List Stride) (pos bp bv : Nat),
+    (maxStep l pos bp bv = (bp, bv)) ∨
+      ∃ j, (maxStep l pos bp bv).1 = pos + j ∧ (l[j]?).bind (·.step) = some (maxStep l pos bp bv).2 ∧
+        bv < (maxStep l pos bp bv).2
+  | [], _, _, _ => Or.inl rfl
+  | s :: r, pos, bp, bv => by
+    cases hs : s.step with
+    | none =>
+      simp only [maxStep, hs]
+      rcases maxStep_attained r (pos + 1) bp bv with h | ⟨j, h1, h2, h3⟩
+      · exact Or.inl h
+      · exact Or.inr ⟨j + 1, by omega, by simpa using h2, h3⟩
+    | some st0 =>
+      simp only [maxStep, hs]
+      by_cases hgt : st0 > bv
+      · rw [if_pos hgt]
+        rcases maxStep_attained r (pos + 1) pos st0 with h | ⟨j, h1, h2, h3⟩
+        · exact Or.inr ⟨0, by simp [h], by simp [h, hs], by rw [h]; exact hgt⟩
+        · exact Or.inr ⟨j + 1, by omega, by simpa using h2, by omega⟩
+      · rw [if_neg hgt]
+        rcases maxStep_attained r (pos + 1) bp bv with h | ⟨j, h1, h2, h3⟩
+        · exact Or.inl h
+        · exact Or.inr ⟨j + 1, by omega, by simpa using h2, h3⟩
+
+/-! ### bound ops on dimensions with a dynamic outermost bound -/
+
+theorem boundsDim_dynamic (d : DynDim) (hr : ∀ x ∈ d.2, 0 < x.bound) (n : Nat) :
+    boundsDim d.toTStride n = .ok (d.boundsFor n) := by
+  obtain ⟨st, r⟩ := d
+  simp only [DynDim.toTStride, DynDim.boundsFor, boundsDim, mapM_bound_static r]
+  have : prodT ({ step := st, bound := none } :: r.map SStride.toStride) = prodB r := by
+    simp only [prodT]; exact prodT_static r hr
+  rw [this]
+
+theorem boundsAt_dynamic : ∀ (ds : List DynDim) (sh : List Nat), sh.length = ds.length →
+    (∀ d ∈ ds, ∀ x ∈ d.2, 0 < x.bound) →
+    boundsAt (ds.map DynDim.toTStride) sh = .ok (List.zipWith DynDim.boundsFor ds sh)
+  | [], _, _, _ => by simp [boundsAt]
+  | _ :: _, [], h, _ => by simp at h
+  | d :: ds, n :: sh, h, hp => by
+    have ih := boundsAt_dynamic ds sh (by simpa using h) (fun d' hd' => hp d' (by simp [hd']))
+    simp only [List.map_cons, boundsAt, boundsDim_dynamic d (hp d (by simp)) n, ih, List.zipWith_cons_cons]
+
+/-- the seed of the dynamic chain: extent at the position of the largest static step × that step × el -/
+def seedOf (l : Layout) (bounds : List (List Nat)) (el : Nat) : Nat :=
+  bounds.flatten.getD (maxStep l.strides 0 (l.strides.length - 1) 0).1 0 *
+    ((maxStep l.strides 0 (l.strides.length - 1) 0).2 * el)
+
+/-- what a successful `stepsAt` returns -/
+theorem stepsAt_ok (l : Layout) (bounds : List (List Nat)) (el : Nat) (steps : List (List Nat))
+    (h : stepsAt l bounds el = .ok steps) :
+    l.strides.length = bounds.flatten.length ∧
+      steps = regroup l.ts (stepsRev el (l.strides.zip bounds.flatten).reverse (seedOf l bounds el)).reverse := by
+  unfold stepsAt at h
+  simp only at h
+  split at h
+  · cases h
+  · split at h
+    · cases h
+    · rename_i hlen
+      split at h
+      · cases h
+      · refine ⟨by simpa using hlen, ?_⟩
+        rcases hm : maxStep l.strides 0 (l.strides.length - 1) 0 with ⟨p, v⟩
+        simp only [hm] at h
+        injection h with h
+        rw [← h, seedOf, hm]
+
+theorem stepsAt_scale (l : Layout) (bounds : List (List Nat)) (el : Nat) :
+    stepsAt l bounds el = (stepsAt l bounds 1).map (·.map (·.map (· * el))) := by
+  unfold stepsAt
+  simp only
+  split
+  · rfl
+  · split
+    · rfl
+    · split
+      · rfl
+      · rcases maxStep l.strides 0 (l.strides.length - 1) 0 with ⟨p, v⟩
+        simp only [Except.map, Nat.mul_one]
+        congr 1
+        rw [show bounds.flatten.getD p 0 * (v * el) = bounds.flatten.getD p 0 * v * el by ring, stepsRev_scale,
+          ← List.map_reverse, regroup_map_steps]
+
+theorem length_flatten_strides (l : Layout) : l.strides.length = (l.ts.map List.length).sum := by
+  simp [Layout.strides, List.length_flatten]
+
+theorem prodL_bounds (r : List SStride) : prodL (r.map (·.bound)) = prodB r := by
+  induction r with
+  | nil => rfl
+  | cons s r ih => simp [prodL, prodB, ih]
+
 end SnaxVerif.Tsl
